@@ -116,7 +116,7 @@ def universe(name, keys="plain"):
     """keys: 'plain' or 'hostile' (C06: keys that look like paths, quotes, unicode, ints, tuples, floats)."""
     K = {
         "plain":   {"a": "a", "b": "b", "c": "c", "d": "d", "n": "n", "x": "x", "y": "y", "z": "z", "i": "i"},
-        "hostile": {"a": "s['b']", "b": "a']['b", "c": ("t", 1), "d": 1.5, "n": "n.x", "x": "é\"q", "y": -7, "z": "s", "i": "i j"},
+        "hostile": {"a": "s['b']", "b": "a']['b__c", "c": ("t", 1), "d": 1.5, "n": "n.x", "x": "é\"q", "y": -7, "z": "s", "i": "i j"},
         # keys as numpy hands them out (for i in np.arange(n): s['l'][i] = ...; names read from a numpy string array)
         "numpy":   {"a": _np.str_("a"), "b": _np.str_("b"), "c": _np.int64(3), "d": _np.str_("d"), "n": _np.str_("n"), "x": _np.str_("x"), "y": _np.int64(7),
                     "z": _np.str_("z"), "i": _np.str_("i")},
